@@ -485,6 +485,27 @@ Proof.
   unfold cflatten in IH. simpl in IH. rewrite IH. auto.
 Qed.
 
+(* every sub-model's unflattenX is handed exactly the values its own flattenX produced *)
+Lemma cunflatten_args_from_cflatten : forall (ms : list codec) (X R : list St) (pre post : list A),
+  length X = length ms -> length R = length ms ->
+  cunflatten_args_from A St ms (snd (cflatten A St ms X)) (pre ++ fst (cflatten A St ms X) ++ post) R (length pre)
+  = map (fun mx => fl A St (fst mx) (snd mx)) (combine ms X).
+Proof.
+  induction ms as [|m ms IH]; intros [|x X] [|r R] pre post HX HR; simpl in HX, HR; try discriminate; auto.
+  unfold cflatten. simpl. rewrite <- app_assoc. rewrite slice_app_exact. f_equal.
+  specialize (IH X R (pre ++ fl A St m x) post ltac:(lia) ltac:(lia)). rewrite app_length in IH. rewrite <- app_assoc in IH.
+  unfold cflatten in IH. simpl in IH. exact IH.
+Qed.
+
+Lemma coupler_args_exact (ms : list codec) (X R : list St) :
+  length X = length ms -> length R = length ms ->
+  cunflatten_args A St ms (snd (cflatten A St ms X)) (fst (cflatten A St ms X)) R
+  = map (fun mx => fl A St (fst mx) (snd mx)) (combine ms X).
+Proof.
+  intros HX HR. unfold cunflatten_args. pose proof (cunflatten_args_from_cflatten ms X R [] [] HX HR) as E.
+  simpl in E. rewrite app_nil_r in E. exact E.
+Qed.
+
 Lemma coupler_roundtrip (ms : list codec) (X R : list St) : all3 consistent ms X R ->
   cunflatten A St ms (snd (cflatten A St ms X)) (fst (cflatten A St ms X)) R = Some X.
 Proof.
@@ -536,6 +557,27 @@ Proof.
 Qed.
 
 End ShapeLemmas.
+
+(* the two kinds of overridden instructions are consistent when handed exactly their own values *)
+Lemma strict_codec_consistent (A : Type) (x ref : state A) :
+  signature A ref = signature A x -> consistent A (state A) (strict_codec A) x ref.
+Proof.
+  intros H. unfold consistent, strict_codec. simpl.
+  rewrite flatten_length, (size_signature A ref x H), Nat.eqb_refl. apply unflatten_flatten; auto.
+Qed.
+Lemma greedy_codec_consistent (A : Type) (c : nat) (d : list A) (ref : state A) :
+  (length d mod c = 0)%nat -> consistent A (state A) (greedy_codec A c) [Arr d] ref.
+Proof.
+  intros H. unfold consistent, greedy_codec, flatten. simpl. rewrite app_nil_r, H. reflexivity.
+Qed.
+(* ... and NOT when handed more: the upper bound of the slice in Coupler.unflattenX matters *)
+Lemma strict_codec_rejects_extra (A : Type) (x : state A) (extra : list A) :
+  extra <> [] -> unfl A (state A) (strict_codec A) (flatten A x ++ extra) x = None.
+Proof.
+  intros H. unfold strict_codec. simpl. rewrite app_length, flatten_length.
+  destruct extra as [|e extra]; [contradiction|]. simpl.
+  destruct (Nat.eqb (size A x + S (length extra)) (size A x)) eqn:E; auto. apply Nat.eqb_eq in E. lia.
+Qed.
 
 (* ========================================================================================== *)
 (* Shapes of everything the built-in iterators hand to the model's callbacks                    *)
